@@ -132,13 +132,28 @@ def r1_heap_protocol(ctx, prog):
     ctx.ob('C02.R1', '%s|min-heap-by-deadline' % cmpf.name, ok, 'TimerCmp(x, y) is x->expired > y->expired (min-heap on the deadline)', where=cmpf.loc(cmpf.body))
 
 
+def pure_clock(f, e, depth=0):
+    """the expression's value is a reading of the monotonic clock taken where it is evaluated (every arm of a conditional included)"""
+    x = f.s(f.strip_casts(e))
+    if x is None or depth > 4:
+        return False
+    if x['k'] == 'CallExpr' and 'GetCurrentSteadyClockMilliseconds' in x.get('callee', ''):
+        return True
+    if x['k'] == 'ConditionalOperator':
+        return pure_clock(f, x['ch'][1], depth + 1) and pure_clock(f, x['ch'][2], depth + 1)
+    return False
+
+
 def clock_locals(f):
+    """locals that hold nothing but a fresh clock reading: every definition is a pure clock expression"""
     out = set()
     for st in f.stmts:
         if st and st['k'] == 'DeclStmt':
             for d in st['decls']:
-                if 'init' in d and any(f.stmts[x]['k'] == 'CallExpr' and 'GetCurrentSteadyClockMilliseconds' in f.stmts[x].get('callee', '') for x in f.walk(d['init'])):
-                    out.add(d['d'])
+                if 'init' in d and pure_clock(f, d['init']):
+                    defs = rd.local_defs(f, d['d'])
+                    if all(x['rhs'] is not None and pure_clock(f, x['rhs']) for x in defs):
+                        out.add(d['d'])
     return out
 
 
@@ -184,8 +199,9 @@ def r3(ctx, prog):
     ok = len(ws) == 1
     if ok:
         x = a.s(a.strip_casts(ws[0][1]))
-        ok = x['k'] == 'BinaryOperator' and x.get('op') == '+' and {a.path(c) for c in x['ch']} == {'now', 'interval'} and \
-            any(a.s(a.strip_casts(c)).get('d') in now for c in x['ch'])
+        iv = a.params[0]['n']
+        sides = [a.s(a.strip_casts(c)) for c in x['ch']] if x['k'] == 'BinaryOperator' and x.get('op') == '+' else []
+        ok = len(sides) == 2 and any(sd.get('d') in now or pure_clock(a, sd['i']) for sd in sides) and any(a.path(sd['i']) == iv for sd in sides)
     ctx.ob('C02.R3', '%s|fresh-interval' % a.name, ok, 'expired = now + interval with now read from the monotonic clock in addTimer', where=a.loc(a.body))
     f = prog.fn1(CL + '::handleExpiredTimers')
     ws = [st for st in f.stmts if st and st['k'] == 'CompoundAssignOperator' and (f.field_of(st['ch'][0]) or '').endswith('Timer::expired')]
@@ -293,6 +309,53 @@ def r5_r6(ctx, prog):
     ctx.ob('C02.R6', TE + '|disable-on-reinit-and-destroy', ok, 'initialize() and the destructor disable first')
 
 
+def r7(ctx, prog):
+    ctx.rule('C02.R7', 'A4+A6: "disabled or destroyed means never invoked again": where the destruction of a TimerEvent is deferred to a later loop task, the timer is '
+             'disabled synchronously first (the destructor\'s own disable only runs when the deferred task does, and the timer may be due earlier in the same pass)', floor=2)
+    funcs = [f for f in prog.funcs.values() if f.file.startswith(MODULES + '/eventx/timer_pool')]
+    n = 0
+    for f, lam_st, call in own.deferred_lambdas(prog, funcs):
+        lam = prog.lambda_func(f, lam_st)
+        if lam is None:
+            continue
+        dels = [st for st in lam.stmts if st and st['k'] == 'CXXDeleteExpr']
+        for d in dels:
+            v = lam.s(lam.strip_casts(d['ch'][0]))
+            if not v or 'TimerEvent' not in (v.get('t') or v.get('ct') or ''):
+                continue
+            n += 1
+            name = v.get('n')
+            cp = q.pt(f, call)
+
+            def disabled_before(g, var, point):
+                ds = [c for c in g.calls() if c.get('fn') == 'disable' and 'obj' in c and g.path(c['obj']) == var]
+                return bool(ds) and not g.cfg.exists_path(g.cfg.entry_point(), point, avoid=q.pts(g, ds))
+            ok = disabled_before(f, name, cp)
+            why = None
+            pf = f.parent_func
+            if not ok and f.is_lambda and pf is not None:
+                # the callback of a one-shot timer deleting that timer: a one-shot has disabled itself before its callback (C02.R5)
+                for sc in pf.calls():
+                    if sc.get('fn') == 'setCallback' and 'obj' in sc and any(pf.stmts[x]['k'] == 'LambdaExpr' and pf.stmts[x].get('fn') == f.usr for a in sc.get('args', ()) for x in pf.walk(a)):
+                        tv = pf.path(sc['obj'])
+                        ini = [c for c in pf.calls() if c.get('fn') == 'initialize' and 'obj' in c and pf.path(c['obj']) == tv and
+                               any((pf.stmts[x].get('n') == 'kOneshot') for a in c.get('args', ()) for x in pf.walk(a))]
+                        # and the deleted timer is the one this token names (freed from the cabinet with the captured token)
+                        if ini:
+                            ok, why = True, 'deleted inside the callback of the one-shot timer itself (already disabled before its callback)'
+            if not ok and any(p_['n'] == name for p_ in f.params):
+                # helper taking the timer as a parameter: every caller must have disabled it before the call
+                idx = [p_['n'] for p_ in f.params].index(name)
+                sites = [(g, c) for g in funcs for c in g.calls() if c.get('usr') == f.usr]
+                ok = bool(sites) and all(disabled_before(g, g.path(c['args'][idx]), q.pt(g, c)) for g, c in sites)
+            ctx.ob('C02.R7', '%s|disable-before-deferred-delete' % locks.site_name(prog, f), ok,
+                   (why or '%s->disable() runs on every path before its delete is deferred' % name) if ok else
+                   'the delete of %s is deferred to a later loop task without a synchronous %s->disable(): until that task runs the timer is still armed and can fire '
+                   'after cancel()/cleanup() returned' % (name, name), where=f.loc(call['i']))
+    if n < 2:
+        raise AnalysisBroken('expected >= 2 deferred TimerEvent deletes in TimerPool (cancel, cleanup), found %d' % n)
+
+
 def run(ctx):
     prog = extract('ALL' if ctx.tier == 'thorough' else SCOPE)
     ctx.guard(r1_heap_protocol, ctx, prog)
@@ -300,4 +363,5 @@ def run(ctx):
     ctx.guard(r3, ctx, prog)
     ctx.guard(r4, ctx, prog)
     ctx.guard(r5_r6, ctx, prog)
+    ctx.guard(r7, ctx, prog)
     return prog
